@@ -112,3 +112,31 @@ func TestDevConcreteGetters(t *testing.T) {
 	})
 	t.Logf("programs %d, with concrete-error getter %d (home %d)", n, withG, inHome)
 }
+
+func TestDevErrGetterNotes(t *testing.T) {
+	if os.Getenv("VERIF_DEV") == "" {
+		t.Skip("dev only")
+	}
+	env := hx.LoadEnv("DEV")
+	pf := fullProfile()
+	pf.ErrHeavy = true
+	n, with, noErr := 0, 0, 0
+	rapidRun(t, env, "x", 300, func(rt *rapid.T) {
+		p := pg.GenProg(rt, pf)
+		n++
+		for _, m := range p.AllMethods() {
+			for _, nt := range m.Notes {
+				if nt.Kind == "map" && strings.Contains(nt.Args[0], ".E()") && strings.HasPrefix(nt.Args[0], "$") {
+					with++
+					if !m.RetErr {
+						noErr++
+						if noErr < 3 {
+							t.Logf("%s\n%s", strings.Join(m.NotationLines(), "\n"), m.MethodLine())
+						}
+					}
+				}
+			}
+		}
+	})
+	t.Logf("programs %d, $k.E() notes %d, in methods without error %d", n, with, noErr)
+}
